@@ -143,6 +143,9 @@ fn pristine(nm: &Naming) -> tera::Tera {
     if !nm.prefixes.is_empty() {
         t.set_fallback_prefixes(nm.prefixes.clone()).expect("prefixes on an empty instance");
     }
+    // a name every template may read: bound (to the empty text) in the instance's global context,
+    // so that a read of it deep in an include chain resolves THROUGH every including template
+    t.global_context().insert("bound_w", "");
     t
 }
 
@@ -1226,7 +1229,12 @@ fn main() {
         let (n, kind, closure, naming) = chain_decode(item);
         let nm = chain_naming(n, naming);
         let g = chain_graph(n, kind, closure);
-        let srcs: Vec<String> = g.iter().enumerate().map(|(i, t)| source(i, t, &nm)).collect();
+        // every template of a chain also reads a name bound to the empty text in the global context
+        // (the rendered text is unchanged) and one nobody binds: both lookups walk up through every
+        // including template - the cost of ONE read deep in a chain must not grow faster than the
+        // chain (seeded change C11-14 made every level of the walk look twice when the name is
+        // found: 2^depth lookups, a 32-deep chain never finishes)
+        let srcs: Vec<String> = g.iter().enumerate().map(|(i, t)| format!("{}{{{{ bound_w }}}}{{{{ unbound_w | default(value=\"\") }}}}", source(i, t, &nm))).collect();
         (n, kind, closure, nm, g, srcs)
     };
     run.family(
